@@ -48,8 +48,7 @@
 (assert (forall ((s Bytes) (p Bytes)) (! (=> (and (contains s p) (> (blen p) 0)) (and (= s (bcat (splitHead s p) (bcat p (splitTail s p)))) (not (contains (splitHead s p) p)))) :pattern ((contains s p)))))
 (assert (forall ((s Bytes) (p Bytes)) (! (=> (not (contains s p)) (= (splitHead s p) s)) :pattern ((splitHead s p)))))
 (assert (forall ((a Bytes) (p Bytes) (b Bytes)) (! (contains (bcat a (bcat p b)) p) :pattern ((contains (bcat a (bcat p b)) p)))))
-(assert (forall ((a Bytes) (p Bytes) (b Bytes)) (! (=> (and (= (blen p) 1) (not (contains a p))) (= (splitHead (bcat a (bcat p b)) p) a)) :pattern ((splitHead (bcat a (bcat p b)) p)))))
-(assert (forall ((a Bytes) (p Bytes) (b Bytes)) (! (=> (and (= (blen p) 1) (not (contains a p))) (= (splitTail (bcat a (bcat p b)) p) b)) :pattern ((splitTail (bcat a (bcat p b)) p)))))
+(assert (forall ((a Bytes) (p Bytes) (b Bytes)) (! (=> (and (= (blen p) 1) (not (contains a p))) (and (= (splitHead (bcat a (bcat p b)) p) a) (= (splitTail (bcat a (bcat p b)) p) b) (contains (bcat a (bcat p b)) p))) :pattern ((bcat a (bcat p b))))))
 (assert (forall ((s Bytes) (p Bytes)) (! (=> (contains s p) (<= (blen p) (blen s))) :pattern ((contains s p)))))
 (assert (forall ((a Bytes) (b Bytes) (p Bytes)) (! (=> (contains a p) (contains (bcat a b) p)) :pattern ((contains (bcat a b) p)))))
 ; ---- paths: joining with a valid component is injective and never yields the parent
